@@ -200,6 +200,11 @@ impl Watcher {
             return Err(AddAppointmentFailure::AlreadyTriggered);
         }
 
+        // The locator cache is held from here until the appointment is stored, so concurrent requests
+        // for the same appointment are charged and stored one after the other (otherwise both would be
+        // charged as new before either is stored).
+        let locator_cache = self.locator_cache.lock().unwrap();
+
         // TODO: This is not atomic, we update the users slots and THEN add their appointment
         // this means it can happen that we update the slots but some failure happens before we insert their appointment.
         let available_slots = self
@@ -211,12 +216,7 @@ impl Watcher {
         // This will hang, the request will timeout but be accepted. However, the user will not be handed the receipt.
         // This could be fixed adding a thread to take care of storing while the main thread returns the receipt.
         // Not fixing this atm since working with threads that call self.method is surprisingly non-trivial.
-        match self
-            .locator_cache
-            .lock()
-            .unwrap()
-            .get(&extended_appointment.locator())
-        {
+        match locator_cache.get(&extended_appointment.locator()) {
             // Appointments that were triggered in blocks held in the cache
             Some(dispute_tx) => {
                 self.store_triggered_appointment(uuid, &extended_appointment, user_id, dispute_tx);
